@@ -313,12 +313,20 @@ pub fn instructions(ctx: &mut Ctx) {
         }
     }
     // NAME.RANDBOUNDNAME: a currently bound name whenever one exists
-    for nb in 0..=3usize {
+    // ... also while a NAME.QUOTE is pending, and with names already on the NAME stack (nb + 10, nb + 20)
+    for nbv in [0usize, 1, 2, 3, 11, 12, 13, 21, 22, 23] {
+        let nb = nbv % 10;
         let mut m = M::default();
         for k in 0..nb {
             m.bindings.insert(format!("BOUND{}", k), Tree::I(k as i32));
         }
-        let lab = format!("NAME.RANDBOUNDNAME with {} bindings", nb);
+        let extra_names = if nbv >= 20 { 2 } else { 0 };
+        if nbv >= 20 {
+            m.n = vec!["N1".into(), "BOUND0".into()];
+        } else if nbv >= 10 {
+            m.quote = true;
+        }
+        let lab = format!("NAME.RANDBOUNDNAME with {} bindings{}", nb, if nbv >= 20 { ", names on the NAME stack" } else if nbv >= 10 { ", NAME.QUOTE pending" } else { "" });
         let rr = &mut real;
         let mut seen = BTreeSet::new();
         judged_pass(ctx, &lab, &full, 1, &red, 1, &mut |_c, script| {
@@ -326,7 +334,7 @@ pub fn instructions(ctx: &mut Ctx) {
             match o {
                 Outcome::Panic(p) => RunOut { log, okey: panic_class(&p), verdict: Verdict::fail("NAME.RANDBOUNDNAME", &panic_class(&p), p), nontrivial: false },
                 Outcome::Ok(g) => {
-                    let v = if g.n.len() != 1 {
+                    let v = if g.n.len() != 1 + extra_names {
                         Verdict::fail("NAME.RANDBOUNDNAME", "shape", format!("NAME {:?}", g.n))
                     } else if nb > 0 && !m.bindings.contains_key(&g.n[0]) {
                         Verdict::fail("NAME.RANDBOUNDNAME", "unbound", format!("{} is not a bound name", g.n[0]))
